@@ -98,7 +98,9 @@ pub fn pad(v: f32) -> f32 {
 /// extracting the css tag of inside of a shape fragment
 pub mod parser {
 
-    use pom::parser::{is_a, list, none_of, one_of, sym, tag, Parser};
+    use pom::parser::{
+        end, is_a, list, none_of, one_of, sym, tag, Parser,
+    };
     use std::iter::FromIterator;
 
     /// Parses a list with the defined separator, but will fail early when one of the
@@ -156,8 +158,9 @@ pub mod parser {
         ch == '_'
     }
 
+    /// a line ending: `\r\n`, `\n` or `\r`, a `\r\n` pair is 1 line ending, not 2
     pub fn new_line<'a>() -> Parser<'a, char, ()> {
-        one_of("\r\n").discard()
+        (sym('\r') * sym('\n')).discard() | one_of("\r\n").discard()
     }
 
     /// any whitespace character
@@ -215,8 +218,10 @@ pub mod parser {
     }
 
     /// a = {fill: red}
+    /// trailing spaces and tabs after the closing brace belong to the entry
     fn class_and_style<'a>() -> Parser<'a, char, (String, String)> {
         (-space() * ident() - space() - sym('=') - space()) + css_styles()
+            - space()
     }
 
     /// Parses:
@@ -225,7 +230,8 @@ pub mod parser {
     ///  b = {stroke: blue}
     ///
     fn css_legend<'a>() -> Parser<'a, char, Vec<(String, String)>> {
-        (space() - sym('#') - space() - tag("Legend:") - space() - new_line())
+        (space() - sym('#') - space() - tag("Legend:") - space()
+            - (new_line() | end()))
             * css_style_list()
     }
 
